@@ -100,18 +100,22 @@ func c11positions() []c11pos {
 var c11sigma = []string{"a", "Z", "1", ".", "-", "_", "/", `"`, "*", "&", "{", "}", " "}
 var c11tok = []string{"&", "*", `"`, "a", "B1", ".", "/", "{}"}
 
+// words enumerates every string over sigma of length 0..max, shorter strings first (so that a time cap leaves a
+// completed length bound behind).
 func words(sigma []string, max int, f func(string)) {
-	var rec func(cur string, n int)
-	rec = func(cur string, n int) {
-		f(cur)
-		if n == max {
+	var rec func(cur string, left int)
+	rec = func(cur string, left int) {
+		if left == 0 {
+			f(cur)
 			return
 		}
 		for _, s := range sigma {
-			rec(cur+s, n+1)
+			rec(cur+s, left-1)
 		}
 	}
-	rec("", 0)
+	for n := 0; n <= max; n++ {
+		rec("", n)
+	}
 }
 
 // c11defects: independent same-stage violations in distinct keys (validation stage).
